@@ -4,6 +4,27 @@ from typing import List
 from vf.vcodec import *  # noqa
 
 
+def _inv(s, pack, content, z, before, total):
+    """the stream invariant: the internal buffer holds exactly the plain bytes between the logical position and what the
+    inflater has produced; the unconsumed tail is the compressed bytes between what the inflater consumed and what was
+    read from the pack"""
+    d = s._decompressor
+    if d.z is None:
+        if d.c != 0 or d.p != 0:
+            return False
+    if not (s._internal_buffer == content[s._pos : d.p]):
+        return False
+    if s._pos > d.p:
+        return False
+    got = pack.pos - before  # compressed bytes taken from the pack so far
+    if got < d.c or got > total:
+        return False
+    if d.eof:
+        return d.c == total and d.p == len(content)
+    tail = d.unconsumed_tail
+    return tail == Seg([(z, d.c, got)])
+
+
 def _zread(what, n, total, before, pos, c, u, a, tape):
     content = Seg([(('obj', 0, n), 0, n)])
     z = ZTok(content, total)
@@ -39,6 +60,8 @@ def _zread(what, n, total, before, pos, c, u, a, tape):
         # C18 (chunked I/O): what stays buffered after read(a) is bounded by the request, not by the object
         if a > 0 and len(s._internal_buffer) > max(old - a, a - 1):
             return False
+        if not _inv(s, pack, content, z, before, total):
+            return False  # the invariant is re-established: any later step starts from a state these cells cover
         return (got == content[pos : pos + k]) and s.tell() == pos + k
     except Vacuous:
         return True
@@ -118,6 +141,10 @@ def _zseek(what, n, total, before, pos, c, u, t, whence, a, tape):
             return not (target < pos and target > 0 and p > pos)
         if r != want or s.tell() != want:
             return False
+        if not _inv(s, pack, content, z, before, total):
+            return False  # invariant re-established: every later read/seek starts from a state the one-step cells cover
+        if a < 0:
+            return True
         k = min(a, n - want)
         got = s.read(a)
         return (got == content[want : want + k]) and s.tell() == want + k
@@ -137,51 +164,63 @@ def zseek_zero(n: int, total: int, before: int, pos: int, c: int, u: int, a: int
     return _zseek('check', n, total, before, pos, c, u, 0, 0, a, tape)
 
 
-def zseek_back(n: int, total: int, before: int, pos: int, c: int, u: int, t: int, a: int, tape: List[int]) -> bool:
+def zseek_back(n: int, total: int, before: int, pos: int, c: int, u: int, t: int, tape: List[int]) -> bool:
     """
-    seek(t, 0) to a target before the current position (rewind, then inflate forward again), then read(a).
+    seek(t, 0) to a target before the current position (rewind, then inflate forward again); invariant afterwards.
     pre: 0 <= n <= 200000 and 2 <= total <= 2000000 and 0 <= before <= 2
     pre: 0 <= pos and 0 <= c and 0 <= u <= 524288
-    pre: -2 <= t < pos and 0 <= a <= 1000
-    pre: len(tape) <= 7
+    pre: -2 <= t < pos
+    pre: len(tape) <= 5
     post: _
     """
-    return _zseek('check', n, total, before, pos, c, u, t, 0, a, tape)
+    return _zseek('check', n, total, before, pos, c, u, t, 0, -1, tape)
 
 
-def zseek_fwd(n: int, total: int, before: int, pos: int, c: int, u: int, t: int, a: int, tape: List[int]) -> bool:
+def zseek_fwd(n: int, total: int, before: int, pos: int, c: int, u: int, t: int, tape: List[int]) -> bool:
     """
-    seek(t, 0) to a target at or after the current position (also beyond the end: clamped), then read(a).
+    seek(t, 0) to a target at or after the current position (also beyond the end: clamped); invariant afterwards.
     pre: 0 <= n <= 200000 and 2 <= total <= 2000000 and 0 <= before <= 2
     pre: 0 <= pos and 0 <= c and 0 <= u <= 524288
-    pre: pos <= t <= 200010 and 0 <= a <= 1000
-    pre: len(tape) <= 7
+    pre: pos <= t <= 200010
+    pre: len(tape) <= 5
     post: _
     """
-    return _zseek('check', n, total, before, pos, c, u, t, 0, a, tape)
+    return _zseek('check', n, total, before, pos, c, u, t, 0, -1, tape)
 
 
-def zseek_rel(n: int, total: int, before: int, pos: int, c: int, u: int, t: int, a: int, tape: List[int]) -> bool:
+def zseek_rel_back(n: int, total: int, before: int, pos: int, c: int, u: int, t: int, tape: List[int]) -> bool:
     """
-    seek(t, 1), then read(a).
+    seek(t, 1) with t < 0; invariant afterwards.
     pre: 0 <= n <= 200000 and 2 <= total <= 2000000 and 0 <= before <= 2
     pre: 0 <= pos and 0 <= c and 0 <= u <= 524288
-    pre: -200010 <= t <= 200010 and 0 <= a <= 1000
-    pre: len(tape) <= 7
+    pre: -200010 <= t < 0
+    pre: len(tape) <= 5
     post: _
     """
-    return _zseek('check', n, total, before, pos, c, u, t, 1, a, tape)
+    return _zseek('check', n, total, before, pos, c, u, t, 1, -1, tape)
 
 
-def zseek_far(n: int, total: int, t: int, a: int, tape: List[int]) -> bool:
+def zseek_rel_fwd(n: int, total: int, before: int, pos: int, c: int, u: int, t: int, tape: List[int]) -> bool:
     """
-    seek(t, 0) from the initial state across the 256 KiB read-ahead step of _seek_internal, then read(a).
+    seek(t, 1) with t >= 0; invariant afterwards.
+    pre: 0 <= n <= 200000 and 2 <= total <= 2000000 and 0 <= before <= 2
+    pre: 0 <= pos and 0 <= c and 0 <= u <= 524288
+    pre: 0 <= t <= 200010
+    pre: len(tape) <= 5
+    post: _
+    """
+    return _zseek('check', n, total, before, pos, c, u, t, 1, -1, tape)
+
+
+def zseek_far(n: int, total: int, t: int, tape: List[int]) -> bool:
+    """
+    seek(t, 0) from the initial state across the 256 KiB read-ahead step of _seek_internal; invariant afterwards.
     pre: 262000 <= n <= 600000 and 2 <= total <= 2000000
-    pre: 262000 <= t <= 600010 and 0 <= a <= 1000
-    pre: len(tape) <= 9
+    pre: 262000 <= t <= 600010
+    pre: len(tape) <= 6
     post: _
     """
-    return _zseek('check', n, total, 1, 0, 0, 0, t, 0, a, [0] + tape)
+    return _zseek('check', n, total, 1, 0, 0, 0, t, 0, -1, [0] + tape)
 
 
 def zseek_reach(n: int, total: int, before: int, pos: int, c: int, u: int, t: int, a: int, tape: List[int]) -> bool:
